@@ -94,6 +94,7 @@ impl<'a> Checker<'a> {
             }
         };
         let marks = self.sc.marks();
+        LAST_PROBE.with(|l| *l.borrow_mut() = format!("{} for slot {} starting at {} in state {}", String::from_utf8_lossy(&argv[0]), slot, start, state));
         let (reply, path) = match tokio::time::timeout(Duration::from_secs(20), self.sc.sys.client(start, argv.clone(), 6)).await {
             Ok(x) => x,
             Err(_) => {
@@ -245,7 +246,27 @@ fn dbg(msg: &str) {
     }
 }
 
+thread_local! {
+    static LAST_PROBE: std::cell::RefCell<String> = std::cell::RefCell::new(String::new());
+}
+
+/// Message budget of one scenario (the unchanged tree needs < 10^4; measured as
+/// max_messages_in_one_scenario): beyond it the scenario is stopped and reported as a message loop.
+const MSG_BUDGET: u64 = 500_000;
+
 pub async fn run_scenario(rep: &mut Report, sub_seed: u64, table: Arc<Vec<Vec<u8>>>, random_n: usize) {
+    LAST_PROBE.with(|l| l.borrow_mut().clear());
+    if crate::sim::guarded(MSG_BUDGET, run_scenario_inner(rep, sub_seed, table, random_n)).await.is_err() {
+        let last = LAST_PROBE.with(|l| l.borrow().clone());
+        rep.violation(
+            "C02:message-loop",
+            format!("the proxies exchanged more than {} messages without finishing (a forwarding / redirection / retry loop); last probe: {}", MSG_BUDGET, last),
+            json!({"sub_seed": sub_seed, "last_probe": last}),
+        );
+    }
+}
+
+async fn run_scenario_inner(rep: &mut Report, sub_seed: u64, table: Arc<Vec<Vec<u8>>>, random_n: usize) {
     let mut rng = Rng::new(sub_seed);
     dbg(&format!("scenario {}", sub_seed));
     let opts = gen_opts(&mut rng);
@@ -505,6 +526,8 @@ pub async fn run_scenario(rep: &mut Report, sub_seed: u64, table: Arc<Vec<Vec<u8
         ck.rep.sample(json!({"scenario": ctx, "migrations": phases.iter().map(|m| json!({"ranges": m.mig.ranges, "src": m.mig.meta.src_node_address, "dst": m.mig.meta.dst_node_address, "phase_reached_before_release": format!("{:?}", m.phase)})).collect::<Vec<_>>(), "coordinator_rounds_to_finish": rounds}));
     }
     ck.rep.count("scenarios_completed", 1);
+    let used = sc.sys.net.inner.passed.load(std::sync::atomic::Ordering::Relaxed);
+    ck.rep.set_max("max_messages_in_one_scenario", used);
 }
 
 pub fn run_sharded<F>(rep: &mut Report, n: u64, threads: usize, f: F)
